@@ -53,6 +53,12 @@ pub struct Snap {
     pub legacy: usize,
 }
 
+/// the hub names the two token contracts of the system (whose burns call it back)
+pub fn hub_wired_to_tokens(c: &Chain) -> bool {
+    let w = c.hub_wiring();
+    w[2] == Some(BSEI) && w[3] == Some(STSEI)
+}
+
 pub fn snap(c: &Chain) -> Snap {
     let mut s = Snap::default();
     s.time = c.time;
@@ -478,6 +484,15 @@ pub fn check_step(cx: &StepCtx) -> Vec<Violation> {
                 if needs_check && !cx.effects.iter().any(|e| matches!(e, Effect::Wasm { target: t, variant, .. } if *t == HUB && variant == "check_slashing")) {
                     out.push(v("C18", "burn-without-check-slashing", format!("{} did not make the hub refresh its rates", kind)));
                 }
+                // ... and the refresh is real: the stored rates are the ones the State query derives
+                // from the pools, supplies and requests of the same moment
+                if needs_check && hub_wired_to_tokens(cx.chain_post) {
+                    if let Some(q) = post.q {
+                        if post.raw[2] + post.raw[3] > 0 && post.delegated > 0 && (q[0] != post.raw[0] || q[1] != post.raw[1]) {
+                            out.push(v("C18", "burn-left-stale-rates", format!("{}: stored rates {},{} but the State query derives {},{}", kind, post.raw[0], post.raw[1], q[0], q[1])));
+                        }
+                    }
+                }
             }
             // hub-driven stSei burns (unbond/convert) also trigger the refresh
             let st_burn = cx.effects.iter().any(|e| matches!(e, Effect::Wasm { target: t, variant, .. } if *t == STSEI && variant == "burn"));
@@ -894,6 +909,16 @@ pub fn check_step(cx: &StepCtx) -> Vec<Violation> {
             }
         }
     }
+    // the check inside bond / unbond / convert / re-bonded rewards: whenever one of the hub's
+    // handlers that begin with the slashing check ran in a successful transaction that started with an
+    // unrecognised slash, the books equal the delegations afterwards
+    if is_tx && ok && cx.envelope {
+        let booked = pre.raw[2] + pre.raw[3];
+        let checked = cx.effects.iter().any(|e| matches!(e, Effect::Wasm { target, variant, .. } if *target == HUB && matches!(variant.as_str(), "bond" | "bond_for_st_sei" | "bond_rewards" | "receive" | "check_slashing")));
+        if checked && pre.delegated > 0 && booked > pre.delegated && post.raw[2] + post.raw[3] != post.delegated {
+            out.push(v("C06", "slash-not-recognised-inside-operation", format!("{}: started with books {} over delegations {}, a slashing-checking hub handler ran, and ended with books {} ≠ delegations {}", kind, booked, pre.delegated, post.raw[2] + post.raw[3], post.delegated)));
+        }
+    }
     if let (Some(a), Some(b)) = (pre.q, post.q) {
         if !is_env(op) && (b[2] > a[2] && b[3] > a[3]) && matches!(kind, "hub.check") {
             out.push(v("C06", "check-raised-pools", format!("check raised both pools {}/{} → {}/{}", a[2], a[3], b[2], b[3])));
@@ -1247,6 +1272,35 @@ pub fn check_step(cx: &StepCtx) -> Vec<Violation> {
         if in_dispatcher && authorised_sender && cx.err.starts_with("insufficient funds") && pre.raw[2] + pre.raw[3] > 0 && !pre.paused {
             out.push(v("C17", "dispatcher-overdraws", format!("{}: a message of the dispatcher was refused by the bank: {}", kind, cx.err)));
             out.push(v("C19", "index-update-failed:insufficient-funds", format!("{}: index update failed with stake bonded: {}", kind, cx.err)));
+        }
+    }
+
+    // ---------------------------------------------------------------- C12: the delegation plan of a bond, against the chain's own delegations
+    if is_tx && ok && cx.envelope && matches!(kind, "hub.bond" | "hub.bondst") {
+        if let Op::Tx { funds, .. } = op {
+            let amount: u128 = funds.iter().filter(|f| f.0 == 0).map(|f| f.1).sum();
+            let mut plan: BTreeMap<Id, u128> = BTreeMap::new();
+            for e in cx.effects.iter() {
+                if let Effect::Delegate { v, amt } = e {
+                    *plan.entry(*v).or_insert(0) += amt;
+                }
+            }
+            let n = pre.reg_vals.len() as u128;
+            if n > 0 {
+                let total: u128 = pre.reg_vals.iter().map(|v| *pre.deleg.get(v).unwrap_or(&0)).sum();
+                let ceil = (total + amount + n - 1) / n;
+                if plan.values().sum::<u128>() != amount {
+                    out.push(v("C12", "bond-plan-not-conserved", format!("{}: {} paid, the Delegate messages carry {:?}", kind, amount, plan)));
+                }
+                for (val, d) in plan.iter() {
+                    let held = *pre.deleg.get(val).unwrap_or(&0);
+                    if !pre.reg_vals.contains(val) {
+                        out.push(v("C12", "bond-plan-to-unregistered", format!("{}: {} delegated to {} which is not registered", kind, d, val)));
+                    } else if *d > 0 && held + d > ceil {
+                        out.push(v("C12", "bond-plan-lifts-above-even-share", format!("{}: validator {} held {} and receives {}: above the even share {} of {} + {} over {} validators", kind, val, held, d, ceil, total, amount, n)));
+                    }
+                }
+            }
         }
     }
 
